@@ -819,8 +819,9 @@ func (sp *StreamParser) ExecCmd(cb RdbObjExecutor) {
 					args = append(args, fields[j], lp.Next())
 				}
 			} else {
-				numFields = lp.NextInteger()
-				for j := int64(0); j < numFields; j++ {
+				// the entry has its own fields; the master entry's field count stays what it is
+				n := lp.NextInteger()
+				for j := int64(0); j < n; j++ {
 					args = append(args, lp.Next(), lp.Next())
 				}
 			}
